@@ -41,6 +41,8 @@ type c13Names struct {
 	// N4
 	replaceIter, replacerIface, deleteMethod string
 	editorCtors                              []string // in planRel
+	// N5
+	joinIter, cacheIface, cacheGet, cachePut string
 }
 
 type c13Arm struct {
@@ -72,6 +74,7 @@ func c13RealNames() c13Names {
 		},
 		replaceIter: "insertIter", replacerIface: "RowReplacer", deleteMethod: "Delete",
 		editorCtors: []string{"NewTableEditorIter", "NewCheckpointingTableEditorIter"},
+		joinIter:    "updateJoinIter", cacheIface: "KeyValueCache", cacheGet: "Get", cachePut: "Put",
 	}
 }
 
@@ -82,13 +85,14 @@ func init() {
 	register(&Property{
 		ID:        "C13",
 		Patterns:  []string{"./sql/rowexec"},
-		Technique: "forking finite-domain fold (AST folding over row shapes x capability flag) of the row-count handlers and of the handler-choosing function; stateful CFG path exploration of accumulatorIter.Next; CFG cycle test on the REPLACE delete",
+		Technique: "forking finite-domain fold (AST folding over row shapes x capability flag) of the row-count handlers and of the handler-choosing function; stateful CFG path exploration of accumulatorIter.Next; CFG cycle test on the REPLACE delete; CFG must-pass-through between cache lookup, cache put and the matched count in updateJoinIter.Next",
 		Explanation: "The affected/matched counts a DML statement reports are produced by rowexec.accumulatorIter: it drains the DML iterator, hands each row to the handler chosen for the statement kind and, at EOF, emits the handler's OkResult. Decided: " +
 			"(N1) accounting tables: handleRowUpdate / handleRowUpdateWithIgnore / handleRowMatched / okResult / RowsMatched of every handler, folded from a freshly built handler over sequences of row shapes (single-width row; old||new row with old==new or old!=new; deleted||inserted row whose deleted half is all NULL or (NULL, value); per-table relations for a join row) and both values of the CLIENT_FOUND_ROWS flag, yield MySQL's documented accounting: INSERT 1 per row; REPLACE 1 per inserted row, 2 when a row was deleted as well; INSERT … ON DUPLICATE KEY UPDATE 1 inserted / 2 updated / 0 set to its current values (1 under CLIENT_FOUND_ROWS); UPDATE matched = every row handed over (also rows skipped by IGNORE), changed = rows with old!=new, affected = changed, or matched under CLIENT_FOUND_ROWS, Info = {matched, changed}; UPDATE … JOIN the same per table row; DELETE 1 per row; every fork of the fold (conditions on values outside the abstraction) must end in the same counts; " +
 			"(N2) dispatch: getRowHandler, folded per DML iterator type (and per replacer / updater field of insertIter), returns the handler of the same statement kind; every handler that has a configuration flag receives getRowHandler's flag parameter, every recursive call through a wrapper forwards it unchanged; an iterator that keeps a pointer to its handler (updateJoinIter.accumulator) is given the handler that is returned; every iterator type that rowexec wraps in a table editor iterator has an arm; every implementation of accumulatorRowHandler is the result of some arm; the flag every caller passes to getRowHandler is (client capabilities & 0x2) != 0, 0x2 being CLIENT_FOUND_ROWS in the MySQL handshake (the constant is folded, not matched by name); " +
 			"(N3) once per row: in accumulatorIter.Next every row pulled from the child with a nil error reaches handleRowUpdate exactly once (with that row) before the next pull, handleRowUpdate is never reached while the child's error is not ruled out, the ignore variant only for an ignorable error, okResult is called only on the io.EOF edge, exactly once, and that path returns a nil error; every other return is an error return without a result; a second call of Next cannot pull again (sync.Once guard with an io.EOF return); the error a handler returns is tested before the next pull or return; the row emitted at EOF is built from the variable bound to okResult() and neither that variable nor its RowsAffected / Info is overwritten; " +
-			"(N4) REPLACE: the handler's table has one 'a row was deleted' bit per emitted row, so between two pulls of the source insertIter.Next may delete at most one existing row per emitted row - a replacer.Delete call on a CFG cycle that avoids the source pull is reported.",
-		NotCovered: "table contents against a reference model (key encoding, statement boundary and index coupling are claimed under C14/C15/C16); the values of the counts over concrete histories: whether the DML iterators emit exactly the rows MySQL would count (WHERE/ORDER BY/LIMIT evaluation, which rows collide with a key, updateJoinIter's de-duplication of table rows by hash, INSERT IGNORE dropping rows, triggers changing rows), sql.Row.Equals itself (the fold treats it as the equality of the two halves), warnings counts, LAST_INSERT_ID / InsertID, ROW_COUNT()/FOUND_ROWS() session bookkeeping, RETURNING statements (no accumulator), LOAD DATA and foreign-key cascades (they reuse insertIter/updateIter and their handlers), the old||new width agreement of UPDATE producers (decided by C23-L), the deleted||inserted layout written by insertIter (read only through N4), the error branch of Row.Equals in the handlers.",
+			"(N4) REPLACE: the handler's table has one 'a row was deleted' bit per emitted row, so between two pulls of the source insertIter.Next may delete at most one existing row per emitted row - a replacer.Delete call on a CFG cycle that avoids the source pull is reported. " +
+			"(N5) UPDATE … JOIN matched rows: in updateJoinIter.Next the handler's handleRowMatched is reached from the seen-rows cache lookup only after the table row was put into the cache, at most once per lookup, and (when the iterator has a handler) on every path from that put to the next lookup or return - so a table row that joins with several rows is matched once.",
+		NotCovered: "table contents against a reference model (key encoding, statement boundary and index coupling are claimed under C14/C15/C16); the values of the counts over concrete histories: whether the DML iterators emit exactly the rows MySQL would count (WHERE/ORDER BY/LIMIT evaluation, which rows collide with a key, the hash and cache that updateJoinIter's de-duplication of table rows relies on (only where matched is counted relative to the cache lookup/put is decided, N5), INSERT IGNORE dropping rows, triggers changing rows), sql.Row.Equals itself (the fold treats it as the equality of the two halves), warnings counts, LAST_INSERT_ID / InsertID, ROW_COUNT()/FOUND_ROWS() session bookkeeping, RETURNING statements (no accumulator), LOAD DATA and foreign-key cascades (they reuse insertIter/updateIter and their handlers), the old||new width agreement of UPDATE producers (decided by C23-L), the deleted||inserted layout written by insertIter (read only through N4), the error branch of Row.Equals in the handlers.",
 		Run: func(c *Ctx) { runC13(c, real, false) },
 		Fixture: func(c *Ctx, fx2 *Prog) {
 			expectFixture(c, fx2, "c13: planted accounting, dispatch, once-per-row and replace-loop defects in the fixture executor must be reported", c13FixtureWant, func(fc *Ctx) { runC13(fc, fx, true) })
@@ -111,6 +115,7 @@ var c13FixtureWant = []string{
 	"C13-N3:accumulatorIter.Next/exits",
 	"C13-N3:accumulatorIter.Next/handler-error",
 	"C13-N4:insertIter.Next/replacer.Delete",
+	"C13-N5:updateJoinIter.Next/matched-on-miss",
 }
 
 type c13Env struct {
@@ -152,6 +157,7 @@ func runC13(c *Ctx, nm c13Names, fx bool) {
 	c.Rule("C13-N1", "row-count handlers folded over row shapes x CLIENT_FOUND_ROWS yield MySQL's documented affected/matched accounting", floor(29))
 	c.Rule("C13-N2", "getRowHandler gives every DML iterator kind the handler of the same statement kind, forwards the found-rows flag, couples iterator and handler, is total over the wrapped iterators", floor(25))
 	c.Rule("C13-N3", "accumulatorIter.Next: each child row reaches the handler exactly once, the result is emitted once and only at io.EOF, errors are returned without a result", floor(6))
+	c.Rule("C13-N5", "updateJoinIter.Next counts a table row as matched exactly once, when it is first recorded in the seen-rows cache", floor(3))
 	c.Rule("C13-N4", "between two pulls of its source the REPLACE iterator deletes at most one existing row per emitted row", floor(1))
 
 	e := &c13Env{c: c, nm: nm, fx: fx}
@@ -188,6 +194,7 @@ func runC13(c *Ctx, nm c13Names, fx bool) {
 	c13RunN2Source(e)
 	c13RunN3(e)
 	c13RunN4(e)
+	c13RunN5(e)
 	if os.Getenv("C13_DEBUG") != "" {
 		for _, o := range c.Obs {
 			if o.Status != OK {
